@@ -1,5 +1,6 @@
 import OcppProps.CDSim
 import OcppProps.C07Fine
+import OcppProps.C07FineOrder
 import OcppModel.ServerSpec
 import OcppModel.Expected
 import OcppGen.Skeletons
@@ -78,6 +79,12 @@ theorem fine_written_and_queued_is_pending (ls : List Ocpp.ClientFine.Label) (s'
 theorem fine_pending_is_head (ls : List Ocpp.ClientFine.Label) (s' : Ocpp.ClientFine.St) (h : Ocpp.ClientFine.runL {} ls = some s') (p : Nat) (hp : s'.pend = some p) :
     s'.q.head? = some p :=
   C07Fine.pending_is_head ls s' h p hp
+
+/-- the CALLs on the wire are a subsequence of the accepted requests in acceptance order (`used` lists the accepted ids,
+    newest first): the pump always writes the oldest accepted request that is neither written nor concluded -/
+theorem fine_written_in_acceptance_order (ls : List Ocpp.ClientFine.Label) (s' : Ocpp.ClientFine.St)
+    (h : Ocpp.ClientFine.runL {} ls = some s') : s'.wire.Sublist s'.used.reverse :=
+  C07Fine.written_in_acceptance_order ls s' h
 
 theorem skel_cdStart : Gen.Skeletons.cdStart = Ocpp.Expected.cdStart := by decide
 theorem skel_cdStop : Gen.Skeletons.cdStop = Ocpp.Expected.cdStop := by decide
